@@ -429,7 +429,15 @@ func bigArrayBlocks(r *Run) {
 		return
 	}
 	for _, sized := range []bool{false, true} {
-		for _, layout := range [][]int{{5, 66000, 10}, {70000}, {1, 1, 65537, 1}, {65536, 65537}} {
+		// a few huge blocks, and very many tiny ones (1500 blocks of one item, 800 of two,
+		// 1000 alternating one and three): what is spent per block adds up only then
+		many := func(n int, sizes ...int) (l []int) {
+			for i := 0; i < n; i++ {
+				l = append(l, sizes[i%len(sizes)])
+			}
+			return
+		}
+		for li, layout := range [][]int{{5, 66000, 10}, {70000}, {1, 1, 65537, 1}, {65536, 65537}, many(1500, 1), many(800, 2), many(1000, 1, 3)} {
 			total := 0
 			var enc []byte
 			for _, n := range layout {
@@ -448,7 +456,15 @@ func bigArrayBlocks(r *Run) {
 			}
 			enc = append(enc, 0)
 			// a map of 3000 entries in two blocks
-			for _, part := range [][2]int{{0, 2000}, {2000, 3000}} {
+			mapParts := [][2]int{{0, 2000}, {2000, 3000}}
+			if li >= 4 {
+				// the same 3000 entries in 1500 blocks of two
+				mapParts = nil
+				for i := 0; i < 3000; i += 2 {
+					mapParts = append(mapParts, [2]int{i, i + 2})
+				}
+			}
+			for _, part := range mapParts {
 				enc = append(enc, specVarint(int64(part[1]-part[0]))...)
 				for i := part[0]; i < part[1]; i++ {
 					k := fmt.Sprintf("key-%05d", i)
